@@ -44,6 +44,8 @@ type encWalker struct {
 	closures map[types.Object]*ast.FuncLit
 	lenOf    map[types.Object]string // scratch locals holding len(S): local -> term of S
 	marks    map[types.Object]func() (Poly, bool) // locals holding an earlier cursor value -> bytes written since
+	inlineEntry []W // what the deterministic arm of a closure-less map block writes per entry
+	idxMarker string // "idx" or "idx1": how the index variable of the reverse loop just matched relates to the element index
 }
 
 func (w *encWalker) isIdent(x ast.Expr, o types.Object) bool {
@@ -372,6 +374,19 @@ func (w *encWalker) stmts(list []ast.Stmt, out *wout, baseMark func() (Poly, boo
 					out.prepend(WVarint{v})
 					continue
 				}
+				// i = runtime.<Helper>(dAtA, i, V): another encoding helper of the runtime package — its body is walked by
+				// this same engine with its buffer, cursor and value parameters bound, and what it writes is prepended here
+				if ok && len(call.Args) == 3 && w.isIdent(call.Args[0], w.buf) && w.isIdent(call.Args[1], w.iVar) {
+					if ws, is, err := w.encodeHelper(call); is {
+						if err != nil {
+							return err
+						}
+						for k := len(ws) - 1; k >= 0; k-- {
+							out.prepend(ws[k])
+						}
+						continue
+					}
+				}
 				return und("assignment to the cursor: %s", nodeStr(s))
 			}
 			// local definitions
@@ -478,7 +493,7 @@ func (w *encWalker) stmts(list []ast.Stmt, out *wout, baseMark func() (Poly, boo
 			}
 			sub := &wout{}
 			ce := w.e.child()
-			ce.set(idx, "idx("+coll+")")
+			ce.set(idx, w.idxMarker+"("+coll+")")
 			saved := w.e
 			w.e = ce
 			err := w.stmts(t.Body.List, sub, nil)
@@ -557,14 +572,23 @@ func (w *encWalker) reverseLoop(fs *ast.ForStmt) (string, types.Object, bool) {
 	if !ok {
 		return "", nil, false
 	}
-	be, ok := ast.Unparen(init.Rhs[0]).(*ast.BinaryExpr)
-	if !ok || be.Op != token.SUB {
-		return "", nil, false
+	// for i := len(C)-1; i >= 0; i-- { … C[i] … }   or   for i := len(C); i > 0; i-- { … C[i-1] … }
+	w.idxMarker = "idx"
+	lenExpr := ast.Unparen(init.Rhs[0])
+	wantOp, wantK := token.GEQ, int64(0)
+	if be, ok := lenExpr.(*ast.BinaryExpr); ok {
+		if be.Op != token.SUB {
+			return "", nil, false
+		}
+		if k, ok := constInt(info, be.Y); !ok || k != 1 {
+			return "", nil, false
+		}
+		lenExpr = ast.Unparen(be.X)
+	} else {
+		w.idxMarker = "idx1"
+		wantOp = token.GTR
 	}
-	if k, ok := constInt(info, be.Y); !ok || k != 1 {
-		return "", nil, false
-	}
-	call, ok := ast.Unparen(be.X).(*ast.CallExpr)
+	call, ok := lenExpr.(*ast.CallExpr)
 	if !ok {
 		return "", nil, false
 	}
@@ -576,10 +600,10 @@ func (w *encWalker) reverseLoop(fs *ast.ForStmt) (string, types.Object, bool) {
 		return "", nil, false
 	}
 	cond, ok := fs.Cond.(*ast.BinaryExpr)
-	if !ok || cond.Op != token.GEQ || !w.isIdent(cond.X, info.ObjectOf(iv)) {
+	if !ok || cond.Op != wantOp || !w.isIdent(cond.X, info.ObjectOf(iv)) {
 		return "", nil, false
 	}
-	if k, ok := constInt(info, cond.Y); !ok || k != 0 {
+	if k, ok := constInt(info, cond.Y); !ok || k != wantK {
 		return "", nil, false
 	}
 	post, ok := fs.Post.(*ast.IncDecStmt)
@@ -947,6 +971,11 @@ func extractMarshal(m *model.Msg) (*marshalModel, error) {
 					return nil, fmt.Errorf("map block at line %d: %w", m.Pkg.Fset.Position(is.Pos()).Line, err)
 				}
 				_ = mb
+			} else if mb, err, isMap := w.mapBlockInline(is.Body.List, out); isMap {
+				if err != nil {
+					return nil, fmt.Errorf("map block at line %d: %w", m.Pkg.Fset.Position(is.Pos()).Line, err)
+				}
+				_ = mb
 			} else if err := w.stmts(is.Body.List, out, nil); err != nil {
 				return nil, wrapPos(m, is.Pos(), err)
 			}
@@ -1152,4 +1181,74 @@ func (w *encWalker) oneofSwitch(ts *ast.TypeSwitchStmt) (*encBlock, error) {
 		blk.Arms = append(blk.Arms, arm)
 	}
 	return blk, nil
+}
+
+
+// encodeHelper walks `func H(dAtA []byte, offset int, v T) int` of the runtime package as a piece of the encoder: the
+// statements before the final return are interpreted with the helper's own buffer and cursor, the value parameter bound
+// to the argument's term; the final `return offset` / `return EncodeVarint(dAtA, offset, E)` closes it.
+func (w *encWalker) encodeHelper(call *ast.CallExpr) ([]W, bool, error) {
+	f, _ := core.CalleeObj(w.e.info, call).(*types.Func)
+	if helperCtx == nil || f == nil || f.Pkg() == nil || f.Pkg().Path() != core.RepoModule+"/runtime" {
+		return nil, false, nil
+	}
+	rp := helperCtx.Pkg("runtime")
+	if rp == nil {
+		return nil, false, nil
+	}
+	var fd *ast.FuncDecl
+	for _, file := range rp.Syntax {
+		for _, d := range file.Decls {
+			if x, ok := d.(*ast.FuncDecl); ok && x.Recv == nil && x.Body != nil && rp.TypesInfo.Defs[x.Name] == types.Object(f) {
+				fd = x
+			}
+		}
+	}
+	if fd == nil {
+		// a generic helper: Defs holds the generic object, the callee is its instantiation
+		for _, file := range rp.Syntax {
+			for _, d := range file.Decls {
+				if x, ok := d.(*ast.FuncDecl); ok && x.Recv == nil && x.Body != nil && x.Name.Name == f.Name() {
+					fd = x
+				}
+			}
+		}
+	}
+	if fd == nil {
+		return nil, false, nil
+	}
+	var params []*ast.Ident
+	for _, fl := range fd.Type.Params.List {
+		params = append(params, fl.Names...)
+	}
+	if len(params) != 3 || fd.Type.Results == nil || len(fd.Type.Results.List) != 1 || len(fd.Body.List) == 0 {
+		return nil, true, und("encoding helper %s: signature", f.Name())
+	}
+	info := rp.TypesInfo
+	bufO, curO, valO := info.Defs[params[0]], info.Defs[params[1]], info.Defs[params[2]]
+	if bufO == nil || curO == nil || valO == nil || basicKind(curO.Type()) != types.Int {
+		return nil, true, und("encoding helper %s: parameters", f.Name())
+	}
+	arg, err := w.e.term(call.Args[2])
+	if err != nil {
+		return nil, true, err
+	}
+	sub := &encWalker{m: w.m, e: &env{g: w.e.g, info: info, bind: map[types.Object]string{}, msg: w.e.msg}, polys: map[types.Object]Poly{}, iVar: curO, buf: bufO, opts: nil,
+		closures: map[types.Object]*ast.FuncLit{}, lenOf: map[types.Object]string{}}
+	sub.e.set(valO, arg)
+	body := append([]ast.Stmt{}, fd.Body.List...)
+	ret, ok := body[len(body)-1].(*ast.ReturnStmt)
+	if !ok || len(ret.Results) != 1 {
+		return nil, true, und("encoding helper %s does not end in a return of the cursor", f.Name())
+	}
+	body = body[:len(body)-1]
+	if id, isID := ast.Unparen(ret.Results[0]).(*ast.Ident); !isID || info.ObjectOf(id) != curO {
+		// return EncodeVarint(dAtA, offset, E)  ==  offset = EncodeVarint(dAtA, offset, E); return offset
+		body = append(body, &ast.AssignStmt{Lhs: []ast.Expr{params[1]}, Tok: token.ASSIGN, Rhs: []ast.Expr{ret.Results[0]}})
+	}
+	out := &wout{}
+	if err := sub.stmts(body, out, nil); err != nil {
+		return nil, true, fmt.Errorf("encoding helper %s: %w", f.Name(), err)
+	}
+	return out.ws, true, nil
 }
